@@ -77,9 +77,44 @@ func (p prim) js() string {
 	case kBool:
 		return Cbool(p.b)
 	case kNum:
-		return JSNum(p.f)
+		return jsNum(p.f)
 	}
-	return JSStr(p.s)
+	return jsStr(p.s)
+}
+
+// JS source text of a double.  Integer-valued doubles from 2^53 on are written
+// in float syntax: otto keeps an integer literal as a Go int64 and converts
+// that to string digit by digit (finding C05-int-repr-tostring, exercised by
+// its own stream), so the general streams stay out of that representation.
+func jsNum(f float64) string {
+	s := JSNum(f)
+	if math.Abs(f) >= 9007199254740992 && !math.IsInf(f, 0) && !strings.ContainsAny(s, ".e") {
+		if strings.HasSuffix(s, ")") {
+			return s[:len(s)-1] + ".0)"
+		}
+		return s + ".0"
+	}
+	return s
+}
+
+// JS string literal: every BMP unit escaped; astral characters as raw UTF-8
+// (otto's parser turns an escaped surrogate pair into two U+FFFD, which is
+// the parser property's business, C03)
+func jsStr(u []uint16) string {
+	var b strings.Builder
+	b.WriteByte('"')
+	for _, c := range utf16Decode(u) {
+		switch {
+		case c >= 0x10000:
+			b.WriteRune(c)
+		case c >= 0x20 && c < 0x7f && c != '"' && c != '\\':
+			b.WriteByte(byte(c))
+		default:
+			fmt.Fprintf(&b, "\\u%04X", c)
+		}
+	}
+	b.WriteByte('"')
+	return b.String()
 }
 
 const (
@@ -196,7 +231,7 @@ func (o *obj) define() string {
 	}
 	fmt.Fprintf(&b, "o%d.valueOf = %s; o%d.toString = %s; ", o.id, o.vo.js(o.id*2), o.id, o.ts.js(o.id*2+1))
 	for _, k := range o.keys {
-		fmt.Fprintf(&b, "o%d[%s] = 1; ", o.id, JSStr(k))
+		fmt.Fprintf(&b, "o%d[%s] = 1; ", o.id, jsStr(k))
 	}
 	return b.String()
 }
@@ -314,6 +349,7 @@ type gen struct {
 	vm     *otto.Otto
 	nextID int
 	objs   []*obj
+	force  map[string]interface{} // variables that must be injected through Otto.Set with this Go value
 }
 
 func (g *gen) r(n int) int { return g.env.Rng.Intn(n) }
@@ -721,6 +757,12 @@ func (g *gen) readVal(v otto.Value) string {
 // how a primitive initial value reaches the variable: as literal text or through Otto.Set with a Go representation
 func (g *gen) setVar(name string, p prim, src *strings.Builder) string {
 	r := g.env.Rng
+	if gv, ok := g.force[name]; ok {
+		delete(g.force, name)
+		if err := g.vm.Set(name, gv); err == nil {
+			return fmt.Sprintf("%s:=Set(%T %#v)", name, gv, gv)
+		}
+	}
 	if r.Intn(3) == 0 {
 		var gv interface{}
 		how := ""
@@ -763,11 +805,11 @@ func (g *gen) setVar(name string, p prim, src *strings.Builder) string {
 				if f >= 0 && f <= 4294967295 {
 					add(uint32(f), "uint32")
 				}
-				if math.Abs(f) < 9223372036854775808 {
+				if math.Abs(f) < 9007199254740992 {
 					add(int64(f), "int64")
 					add(int(f), "int")
 				}
-				if f >= 0 && f < 18446744073709551616 {
+				if f >= 0 && f < 9007199254740992 {
 					add(uint64(f), "uint64")
 					add(uint(f), "uint")
 				}
@@ -879,6 +921,123 @@ func (g *gen) vars(objects, sideEffects bool) [3]value {
 	return [3]value{g.value(objects, sideEffects), g.value(objects, sideEffects), g.value(objects, sideEffects)}
 }
 
+// an operand expression for v: half of the time through a variable, so that the
+// value also arrives via Otto.Set in one of Go's numeric representations
+func (g *gen) operand(v value, vars *[3]value, slot int) *expr {
+	if g.r(2) == 0 {
+		vars[slot] = v
+		return evar(slot)
+	}
+	return lit(v)
+}
+
+// a number in one of the Go representations otto keeps un-normalised inside a Value,
+// at the boundaries of that representation; returns the Go value and the double it denotes
+func (g *gen) goNumber() (interface{}, float64) {
+	r := g.env.Rng
+	pick := func(vals ...int64) int64 {
+		if r.Intn(3) == 0 {
+			lo, hi := vals[0], vals[1]
+			if hi-lo > 0 && hi-lo < 1<<53 {
+				return lo + r.Int63n(hi-lo+1)
+			}
+		}
+		return Pick(r, vals)
+	}
+	switch r.Intn(11) {
+	case 0:
+		v := int8(pick(-128, 127, -1, 0, 1, -2, 64, -64))
+		return v, float64(v)
+	case 1:
+		v := uint8(pick(0, 255, 1, 128, 127, 254))
+		return v, float64(v)
+	case 2:
+		v := int16(pick(-32768, 32767, -1, 0, 1, 256, -256, 255))
+		return v, float64(v)
+	case 3:
+		v := uint16(pick(0, 65535, 1, 32768, 32767, 256))
+		return v, float64(v)
+	case 4:
+		v := int32(pick(-2147483648, 2147483647, -1, 0, 1, 65536, -65536, 2147483646))
+		return v, float64(v)
+	case 5:
+		v := uint32(pick(0, 4294967295, 1, 2147483648, 2147483647, 4294967294, 65536))
+		return v, float64(v)
+	case 6:
+		v := pick(-9007199254740991, 9007199254740991, -1, 0, 1, 4294967296, -4294967296, 2147483648, -2147483649, 4294967295)
+		return v, float64(v)
+	case 7:
+		v := int(pick(-9007199254740991, 9007199254740991, -1, 0, 1, 4294967296, -4294967296, 2147483648, -2147483649, 4294967295))
+		return v, float64(v)
+	case 8:
+		v := uint64(pick(0, 9007199254740991, 1, 4294967296, 4294967295, 2147483648))
+		return v, float64(v)
+	case 9:
+		v := uint(pick(0, 9007199254740991, 1, 4294967296, 4294967295, 2147483648))
+		return v, float64(v)
+	default:
+		v := Pick(r, []float32{0, float32(math.Copysign(0, -1)), 1.5, -1.5, 16777216, 16777217, float32(math.Inf(1)), float32(math.NaN()), 3.4028235e38, 1e-45, 0.1, -2147483648, 4294967296})
+		return v, float64(v)
+	}
+}
+
+// one of several spellings (number, string forms, boolean, wrapper object) of the same numeric value:
+// pairs of them are where ==, <= and >= have to come out true
+func (g *gen) spelling(n float64, depth int) value {
+	r := g.env.Rng
+	txt := strconv.FormatFloat(n, 'f', -1, 64)
+	switch r.Intn(9) {
+	case 0, 1:
+		return num(n)
+	case 2:
+		return str(txt)
+	case 3:
+		forms := []string{" " + txt + " ", txt + ".0", txt + "e0", "+" + txt, "0" + txt, "\t" + txt + "\n"}
+		if n >= 0 && n == math.Trunc(n) && n < 1e15 {
+			forms = append(forms, "0x"+strconv.FormatInt(int64(n), 16), "0X"+strings.ToUpper(strconv.FormatInt(int64(n), 16)))
+		}
+		if n < 0 {
+			forms = []string{" " + txt, txt + ".0", txt + "e0", txt + "e+0"}
+		}
+		return str(Pick(r, forms))
+	case 4, 8:
+		if n == 0 || n == 1 {
+			return pv(pBool(n == 1))
+		}
+		return num(n)
+	case 5, 6:
+		if depth > 0 {
+			inner := g.spelling(n, 0)
+			o := g.object(false).o
+			o.vo = meth{present: true, setv: -1, ret: retPrim, p: inner.p}
+			if r.Intn(3) == 0 { // valueOf unusable: falls through to toString
+				o.ts = o.vo
+				o.vo = meth{present: r.Intn(2) == 0, setv: -1, ret: retObj}
+			}
+			return value{o: o}
+		}
+		return num(n)
+	case 7:
+		if n == 0 {
+			return str(Pick(r, []string{"", " ", "-0", "0.0", "\n"}))
+		}
+		return str(txt)
+	default:
+		if n == 0 {
+			return num(math.Copysign(0, -1))
+		}
+		return num(n)
+	}
+}
+
+var corePrims = []prim{
+	pUndef(), pNull(), pBool(true), pBool(false),
+	pNum(math.NaN()), pNum(0), pNum(math.Copysign(0, -1)), pNum(math.Inf(1)), pNum(math.Inf(-1)), pNum(1), pNum(-1), pNum(0.5), pNum(-0.5), pNum(2), pNum(-2), pNum(3), pNum(-3),
+	pNum(31), pNum(32), pNum(33), pNum(-31), pNum(2147483647), pNum(2147483648), pNum(-2147483648), pNum(-2147483649), pNum(4294967295), pNum(4294967296), pNum(-4294967296),
+	pNum(9007199254740992), pNum(-9007199254740992), pNum(9223372036854775808), pNum(-9223372036854775808), pNum(1.7976931348623157e308), pNum(-1.7976931348623157e308), pNum(5e-324), pNum(-5e-324),
+	pStr(""), pStr("0"), pStr("-0"), pStr("1"), pStr(" "), pStr("a"), pStr("NaN"), pStr("Infinity"), pStr("-Infinity"), pStr("0x10"), pStr("1e3"), pStr("null"), pStr("true"), pStr("undefined"), pStr("2147483648"), pStr("-1"),
+}
+
 func num(f float64) value   { return pv(pNum(f)) }
 func str(s string) value    { return pv(pStr(s)) }
 
@@ -902,8 +1061,42 @@ func (g *gen) pinned() {
 	o := &obj{id: 1, base: "{}", fproto: -1, vo: meth{present: true, setv: 1, setp: pNum(10), ret: retPrim, p: pNum(1)}, ts: meth{present: true, setv: -1, ret: retPrim, p: pStr("x")}}
 	g.objs = append(g.objs, o)
 	g.runCase([3]value{{o: o}, num(2), num(0)}, bin(0, evar(0), evar(1)), "pinned", true)
-	// class 6: x += (x = 5, 1)
+	// regression witness of the repaired compound-assignment order (commit 3657e0a): x += (x = 5, 1)
 	g.runCase([3]value{num(1), num(0), num(0)}, cmpd(0, 0, bin(23, asg(0, lit(num(5))), lit(num(1)))), "pinned", true)
+}
+
+// number values that otto holds as Go integers: integer literals of 2^53 and
+// more in the source text, integers handed over through Otto.Set
+func (g *gen) intRepr(n int64, how int) {
+	var src, txt string
+	if how < 3 && n < 0 {
+		n = -n // there are no negative literals: -N is a unary minus and yields a float64
+	}
+	lit := strconv.FormatInt(n, 10)
+	switch how {
+	case 0:
+		src = "String(" + lit + ")"
+	case 1:
+		src = "(" + lit + " + \"\")"
+	case 2:
+		src = "(\"\" + " + lit + ")"
+	case 3:
+		Must(g.vm.Set("a", n))
+		src, txt = "String(a)", fmt.Sprintf("[a:=Set(int64 %d)] ", n)
+	default:
+		if n < 0 {
+			n = -n
+		}
+		Must(g.vm.Set("a", uint64(n)))
+		src, txt = "(a + \"\")", fmt.Sprintf("[a:=Set(uint64 %d)] ", n)
+	}
+	o := RunJS(g.vm, src)
+	obs := "[33]"
+	ot := fmt.Sprintf("err=%v panic=%v", o.Err, o.Panic)
+	if o.Err == nil && o.Panic == nil && o.Val.IsString() {
+		obs, ot = Cstr(o.Val.String()), o.Val.String()
+	}
+	g.env.Add(fmt.Sprintf("CIntStr %s %s", Cz(n), obs), sanitize(txt+src+"  ==>  "+ot), "intrepr", true)
 }
 
 func runC05(env *Env) {
@@ -915,14 +1108,83 @@ func runC05(env *Env) {
 	}
 	r := env.Rng
 	g.pinned()
+	g.intRepr(9007199254740993, 0)
+	g.intRepr(60032052788413712, 1)
 	for env.Count() < env.N {
+		if r.Intn(40) == 0 {
+			n := int64(1)<<53 + r.Int63n(int64(1)<<62)>>uint(r.Intn(10))
+			if r.Intn(2) == 0 {
+				n = int64(g.double())
+			}
+			if r.Intn(2) == 0 {
+				n = -n
+			}
+			if n == math.MinInt64 {
+				n++
+			}
+			g.intRepr(n, r.Intn(5))
+			continue
+		}
+		if r.Intn(4) == 0 { // the core values: every operator on pairs (and singles) of the special values
+			vs := g.vars(false, false)
+			a := g.operand(pv(Pick(r, corePrims)), &vs, 0)
+			if r.Intn(3) == 0 {
+				g.runCase(vs, un(r.Intn(12), a), "core-unary", true)
+			} else {
+				b := g.operand(pv(Pick(r, corePrims)), &vs, 1)
+				op := r.Intn(24)
+				if op == 19 || op == 20 {
+					op = r.Intn(19)
+				}
+				g.runCase(vs, bin(op, a, b), "core-binary", true)
+			}
+			continue
+		}
+		if r.Intn(10) == 0 { // equal or adjacent numeric values in different spellings under == != === !== < > <= >=
+			n := Pick(r, []float64{0, 1, 0, 1, 0, 1, -1, 2, 10, 16, 255, 1000, 0.5, -2.5, 4294967296, 1e21})
+			m := n
+			if r.Intn(3) == 0 {
+				m = n + Pick(r, []float64{1, -1, 0.5})
+			}
+			vs := g.vars(false, false)
+			a, b := g.operand(g.spelling(n, 1), &vs, 0), g.operand(g.spelling(m, 1), &vs, 1)
+			g.runCase(vs, bin(Pick(r, cmpOps), a, b), "equiv", true)
+			continue
+		}
+		if r.Intn(12) == 0 { // Go representations handed over through Otto.Set, at the boundaries of each type
+			vs := g.vars(false, false)
+			gv, f := g.goNumber()
+			vs[0] = num(f)
+			g.force = map[string]interface{}{"a": gv}
+			var e *expr
+			switch r.Intn(6) {
+			case 0:
+				e = un(r.Intn(12), evar(0))
+			case 1:
+				e = un(Pick(r, []int{2, 7, 9, 10, 11, 1}), evar(0))
+			case 2:
+				gv2, f2 := g.goNumber()
+				vs[1] = num(f2)
+				g.force["b"] = gv2
+				e = bin(r.Intn(19), evar(0), evar(1))
+			case 3:
+				e = bin(r.Intn(19), evar(0), lit(pv(g.prim())))
+			case 4:
+				e = bin(r.Intn(19), lit(pv(g.prim())), evar(0))
+			default:
+				e = bin(Pick(r, []int{0, 23, 21, 22}), inc(r.Intn(2) == 0, r.Intn(2) == 0, 0), evar(0))
+			}
+			g.runCase(vs, e, "go-repr", true)
+			continue
+		}
 		switch k := r.Intn(20); {
 		case k < 3: // unary operator / conversion built-in on one value
-			v := g.value(true, false)
-			g.runCase(g.vars(false, false), un(r.Intn(12), lit(v)), "unary", true)
+			vs := g.vars(false, false)
+			g.runCase(vs, un(r.Intn(12), g.operand(g.value(true, false), &vs, 0)), "unary", true)
 		case k < 7: // binary operator on a pair of values
-			l, rr := g.value(true, false), g.value(true, false)
-			g.runCase(g.vars(false, false), bin(g.anyBinOp(), lit(l), lit(rr)), "binary", true)
+			vs := g.vars(false, false)
+			l, rr := g.operand(g.value(true, false), &vs, 0), g.operand(g.value(true, false), &vs, 1)
+			g.runCase(vs, bin(g.anyBinOp(), l, rr), "binary", true)
 		case k < 9: // ToNumber on strings: every route into parseNumber
 			s := pv(pUnits(g.numericString()))
 			var e *expr
@@ -942,7 +1204,8 @@ func runC05(env *Env) {
 			}
 			g.runCase(g.vars(false, false), e, "tonumber-string", true)
 		case k < 11: // ToInt32 / ToUint32 / ToUint16 / ToInteger on boundary doubles
-			x := lit(num(g.double()))
+			tv := g.vars(false, false)
+			x := g.operand(num(g.double()), &tv, 0)
 			var e *expr
 			switch r.Intn(8) {
 			case 0:
@@ -962,9 +1225,10 @@ func runC05(env *Env) {
 			default:
 				e = bin(Pick(r, intOps), lit(num(g.double())), x)
 			}
-			g.runCase(g.vars(false, false), e, "toint", true)
+			g.runCase(tv, e, "toint", true)
 		case k < 12: // arithmetic on doubles
-			g.runCase(g.vars(false, false), bin(Pick(r, arithOps), lit(num(g.double())), lit(num(g.double()))), "arith", true)
+			vs := g.vars(false, false)
+			g.runCase(vs, bin(Pick(r, arithOps), g.operand(num(g.double()), &vs, 0), g.operand(num(g.double()), &vs, 1)), "arith", true)
 		case k < 13: // relational / equality on strings
 			a, b := pStr(Pick(r, cmpStrings)), pStr(Pick(r, cmpStrings))
 			if r.Intn(3) == 0 {
